@@ -32,7 +32,9 @@ pub fn run(line: &str) -> String {
         }
         let toks: Vec<&str> = st.split_whitespace().collect();
         assert!(toks[0] == "m", "bad step");
-        let bytes = hex_to_bytes(toks[1]);
+        // several segments: `<hex>+<hex>+...`, each written with its own sendmsg; descriptors go with the first
+        let segs: Vec<Vec<u8>> = toks[1].split('+').map(hex_to_bytes).collect();
+        let seq = toks.contains(&"seq");
         let nfds: usize = toks[2][1..].parse().unwrap();
         let hout = HOut::parse(kv(&toks, "h").unwrap_or("ok"));
         let close_after = toks.contains(&"close");
@@ -49,15 +51,20 @@ pub fn run(line: &str) -> String {
             sh.next = hout;
             sh.calls.clear();
         }
-        if !bytes.is_empty() {
-            let r = sendmsg(peer_fd, &bytes, &fds, 0);
-            assert!(r == bytes.len() as isize, "peer sendmsg failed: {}", r);
-        }
-        for fd in fds {
-            close(fd);
-        }
-        if close_after {
-            shutdown_wr(&peer);
+        let write_seg = |i: usize| {
+            let bytes = &segs[i];
+            if !bytes.is_empty() {
+                let r = sendmsg(peer_fd, bytes, if i == 0 { &fds } else { &[] }, 0);
+                assert!(r == bytes.len() as isize, "peer sendmsg failed: {}", r);
+            }
+        };
+        if !seq {
+            for i in 0..segs.len() {
+                write_seg(i);
+            }
+            if close_after {
+                shutdown_wr(&peer);
+            }
         }
         // run handle_request on a helper thread with a watchdog
         let (tx, rx) = mpsc::channel();
@@ -70,6 +77,31 @@ pub fn run(line: &str) -> String {
                 Err(e) => format!("err.{}", err_class(&e)),
             });
         });
+        if seq {
+            // one segment at a time: the next one is written only after the server has consumed the previous one,
+            // so that every recvmsg sees exactly one segment
+            let sfd = srv_sock.as_raw_fd();
+            for i in 0..segs.len() {
+                write_seg(i);
+                let t0 = std::time::Instant::now();
+                loop {
+                    let mut n: libc::c_int = 0;
+                    unsafe { libc::ioctl(sfd, libc::FIONREAD, &mut n) };
+                    if n == 0 || t0.elapsed() > Duration::from_millis(300) {
+                        break;
+                    }
+                    std::thread::sleep(Duration::from_micros(50));
+                }
+                // give the server the time to return to recvmsg (or to return from handle_request)
+                std::thread::sleep(Duration::from_micros(300));
+            }
+            if close_after {
+                shutdown_wr(&peer);
+            }
+        }
+        for fd in fds.iter() {
+            close(*fd);
+        }
         let r = match rx.recv_timeout(Duration::from_millis(400)) {
             Ok(s) => {
                 let _ = t.join();
